@@ -122,5 +122,19 @@ def _cases_all(ctx):
                         if abs(x) <= 90:
                             yield one(sgn * x, "fine")
                             yield one(sgn * x, "pyx-fine")
+    # the neighbourhood of the equator on a logarithmic scale: the `isclose(lat, 0)` guard ends at 1e-8 degree and the
+    # closed form takes over where cos(lat) still rounds to 1.0 (and the same around the guard window below 87)
+    for e in range(-12, 0):
+        for mant in (1.0, 1.0000001, 1.5, 2.0, 3.0, 5.0, 7.5, 9.9999999):
+            for sgn in (1, -1):
+                x = sgn * mant * 10.0 ** e
+                yield one(x, "log-zero")
+                yield one(x, "pyx-log-zero")
+                y = sgn * (87.0 - mant * 10.0 ** e)
+                yield one(y, "log-87")
+                yield one(y, "pyx-log-87")
+    for _ in range(ctx.n(400, 4000)):
+        x = rng.choice([1, -1]) * 10.0 ** rng.uniform(-9, -2)
+        yield one(x, "log-zero")
     for _ in range(ctx.n(20000, 300000)):
         yield one(rng.uniform(-90, 90), "random")
